@@ -608,6 +608,13 @@ func (ex *Exec) scanEffects(n ast.Node, vars map[types.Object]bool, eff *effects
 			if fc == nil {
 				if eff != nil {
 					eff.heapAll = true
+					if _, isFn := calleeOf(info, s).(*types.Func); !isFn {
+						if tv, ok := info.Types[fun]; ok && tv.Type != nil {
+							if sg, ok := tv.Type.Underlying().(*types.Signature); ok && funcValueIsSink(sg) {
+								eff.ghost["fail"] = true
+							}
+						}
+					}
 				}
 				for _, a := range s.Args {
 					if t, ok := info.Types[a]; ok && t.Type != nil {
